@@ -27,6 +27,9 @@ type BFS struct {
 	Drop     func(state any)
 	MaxDepth int
 	Stop     func() bool
+	// MaxStates (0 = unbounded) ends the search, with CapHit set, once that many distinct states
+	// exist: a defect that makes the state space unbounded must not make the check run away.
+	MaxStates int
 
 	States      int
 	Transitions int
@@ -88,7 +91,7 @@ func (b *BFS) Run(init any) {
 			b.States++
 			next = append(next, &Node{State: s, Hist: append(append([]string(nil), j.n.Hist...), j.a), Depth: depth + 1})
 		}
-		if stopped {
+		if stopped || (b.MaxStates > 0 && b.States > b.MaxStates) {
 			b.CapHit = true
 			return
 		}
